@@ -1,8 +1,40 @@
+use rgb::RGB16;
+
 use crate::{
     colors::{BitDepth, ColorType},
     headers::IhdrData,
     png::PngImage,
 };
+
+/// Convert a 16-bit transparency key along with the samples; `None` means the key cannot match any pixel
+fn color_type_16_to_8(color_type: &ColorType, convert: impl Fn(u16) -> Option<u8>) -> ColorType {
+    match color_type {
+        ColorType::Grayscale {
+            transparent_shade: Some(t),
+        } => ColorType::Grayscale {
+            transparent_shade: convert(*t).map(u16::from),
+        },
+        ColorType::RGB {
+            transparent_color: Some(t),
+        } => ColorType::RGB {
+            transparent_color: match (convert(t.r), convert(t.g), convert(t.b)) {
+                (Some(r), Some(g), Some(b)) => Some(RGB16::new(r.into(), g.into(), b.into())),
+                _ => None,
+            },
+        },
+        _ => color_type.clone(),
+    }
+}
+
+fn scale_16_to_8(val: u16) -> u8 {
+    let [hi, lo] = val.to_be_bytes();
+    if hi == lo {
+        return hi;
+    }
+    // See: http://www.libpng.org/pub/png/spec/1.2/PNG-Decoders.html#D.Sample-depth-rescaling
+    // This allows values such as 0x00FF to be rounded to 0x01 rather than truncated to 0x00
+    (f32::from(val) * (255.0 / 65535.0)).round() as u8
+}
 
 /// Attempt to reduce a 16-bit image to 8-bit, returning the reduced image if successful
 #[must_use]
@@ -24,7 +56,11 @@ pub fn reduced_bit_depth_16_to_8(png: &PngImage, force_scale: bool) -> Option<Pn
     Some(PngImage {
         data: png.data.chunks_exact(2).map(|pair| pair[0]).collect(),
         ihdr: IhdrData {
-            color_type: png.ihdr.color_type.clone(),
+            // A key whose bytes differ cannot match any pixel of this image
+            color_type: color_type_16_to_8(&png.ihdr.color_type, |v| {
+                let [hi, lo] = v.to_be_bytes();
+                (hi == lo).then_some(hi)
+            }),
             bit_depth: BitDepth::Eight,
             ..png.ihdr
         },
@@ -42,21 +78,13 @@ pub fn scaled_bit_depth_16_to_8(png: &PngImage) -> Option<PngImage> {
     let data = png
         .data
         .chunks_exact(2)
-        .map(|pair| {
-            if pair[0] == pair[1] {
-                return pair[0];
-            }
-            // See: http://www.libpng.org/pub/png/spec/1.2/PNG-Decoders.html#D.Sample-depth-rescaling
-            // This allows values such as 0x00FF to be rounded to 0x01 rather than truncated to 0x00
-            let val = f32::from(u16::from_be_bytes([pair[0], pair[1]]));
-            (val * (255.0 / 65535.0)).round() as u8
-        })
+        .map(|pair| scale_16_to_8(u16::from_be_bytes([pair[0], pair[1]])))
         .collect();
 
     Some(PngImage {
         data,
         ihdr: IhdrData {
-            color_type: png.ihdr.color_type.clone(),
+            color_type: color_type_16_to_8(&png.ihdr.color_type, |v| Some(scale_16_to_8(v))),
             bit_depth: BitDepth::Eight,
             ..png.ihdr
         },
